@@ -37,6 +37,14 @@ INPUTS["carry"] = (
     "USE solution 2\nREACTION 1\n NaCl 1\n 1 mmol in 2 steps\nEND\n"
     "USE solution 2\nREACTION_TEMPERATURE 1\n 60\nEND\n"
     "USE solution 2\nEQUILIBRIUM_PHASES 2\n Calcite 0 0.01\nEND\n")
+# the other producers of output / selected-output rows: ADVECTION and TRANSPORT (print / punch cells and frequencies),
+# USER_PRINT, echo of the input, inverse modelling
+INPUTS["flow"] = ("PRINT\n -echo_input true\n -user_print true\nUSER_PRINT\n 10 PRINT \"up\", TOT(\"Na\"), CELL_NO\n"
+                  "SOLUTION 0\n pH 7\n Na 2\n Cl 2\nSOLUTION 1-3\n pH 7\n K 1\n Cl 1\nSELECTED_OUTPUT 1\n -totals Na K\nUSER_PUNCH 1\n -headings c\n 10 PUNCH CELL_NO\nEND\n"
+                  "ADVECTION\n -cells 3\n -shifts 2\n -punch_cells 1 3\n -print_cells 2\n -punch_frequency 1\n -print_frequency 2\nEND\n"
+                  "TRANSPORT\n -cells 3\n -shifts 2\n -lengths 0.1\n -dispersivities 0.01\n -time_step 100\n -punch_cells 2-3\n -print_cells 1\n -punch_frequency 2\n -print_frequency 1\nEND\n")
+INPUTS["inverse"] = ("SOLUTION 1\n pH 7\n Na 1\n Cl 1\nSOLUTION 2\n pH 7\n Na 2\n Cl 2\nSELECTED_OUTPUT 2\n -reset false\n -inverse_modeling true\nEND\n"
+                     "INVERSE_MODELING 1\n -solutions 1 2\n -phases\n  Halite\n -uncertainty 0.05\n -range\nPHASES\nHalite\n NaCl = Na+ + Cl-\n log_k 1.582\nEND\n")
 # definitions and print switches that change between the simulations of one call
 INPUTS["redef"] = ("SOLUTION 1\n pH 7\n Na 1\n Cl 1\nSELECTED_OUTPUT 1\n -totals Na\nEND\n"
                    "SELECTED_OUTPUT 1\n -totals Cl\nUSE solution 1\nREACTION 1\n NaCl 1\n 1 mmol\nEND\n")
@@ -306,6 +314,9 @@ def cases(tier):
                 for cur in (1, 2):
                     for names in (0, 1):
                         out.append({"input": inp, "cfg": [1] * len(GLOBAL) + bits(p, 4), "names": names, "cur": cur})
+        for inp in ("flow", "inverse"):
+            for g in range(2 ** len(GLOBAL)):
+                out.append({"input": inp, "cfg": bits(g, len(GLOBAL)) + [1, 1, 1, 1], "names": g & 1, "cur": 1 + (g & 1)})
         for inp in ("plain", "log", "redef", "printsw", "printdump"):
             for names in (0, 1):
                 out.append({"input": inp, "cfg": [1] * NSW, "names": names, "cur": 1})
